@@ -48,6 +48,8 @@ func main() {
 		switch *dbg {
 		case "appends":
 			debugAppends(w)
+		case "own":
+			debugOwnSites(w)
 		}
 		return
 	}
